@@ -132,3 +132,214 @@ Example C03_fq_example_discarded_and_refused :
   summary 7 (receive env_sys 1 exq_files None 7 1000 exf_pkts) = (Receiving, [CallOpen true; CallWrite [1; 2; 3; 4] true])
   /\ summary 7 (receive env_sys 1 (exd_files (1, 1, 4)) None 7 1000 exq_pkts) = (Errored, [CallOpen true; CallError]).
 Proof. vm_compute. repeat split. Qed.
+
+(* ===== block: C03Session ===== *)
+(* C03 at the RECEIVER level (Model/Recv.v, recv_run from recv0/ctx0) and its MD5 clause; Proofs/C03Session.v.
+   Every statement is about the writers (toi, n), n = 0, 1, ...: the successive object instances of one TOI (with
+   receive-once off, or Cache-Control no-cache, an object is received again after completion).
+   Events: ANY list of recv_run events.  Packets of TOI 0 (FDT instances: any id, complete or not, any order, duplicates,
+   any FEC), packets of other TOIs (not necessarily genuine), unparsable datagrams, RvCleanup with arbitrary expired
+   sets and RvDrop are unconstrained; the builder, open() and write() oracles of E are arbitrary.
+   fdt_lists: every instance the parse_fdt oracle yields that lists [toi] lists it with this OTI, this transfer length,
+   no content encoding (and, for the MD5 clause, the digest of the content). *)
+From FluteV Require Import Proofs.C03Session.
+
+(* G1 + G2: the packets of [toi] are genuine No-Code packets (any subset, order, multiplicity, transfer, with or without
+   close flags, before or after the FDT instance) whose EXT_FTI / EXT_CENC, if present, agree with the object
+   (pkt_ext_ok - needed: C03_ext_fti_needed, C03_ext_cenc_needed); whatever the MD5 attribute and the other traffic *)
+Theorem C03_session_nocode_complete_implies_exact : forall E parse_fdt cfg oti content toi evs,
+  let L := lenN_ content in
+  toi <> 0 -> nocode_ok oti L -> fdt_lists parse_fdt toi oti L (fun _ => True) ->
+  Forall (ev_genuine oti content toi) evs ->
+  let '(_, _, c) := recv_run E parse_fdt cfg recv0 evs ctx0 in
+  forall n, is_prefix (written (calls_of (toi, n) (c_log c))) content = true
+            /\ P_C03_writer content true (calls_of (toi, n) (c_log c)) = true.
+Proof. exact nocode_session_safety. Qed.
+Print Assumptions C03_session_nocode_complete_implies_exact.
+
+(* G1: the same when only the FDT and the object are on the channel *)
+Theorem C03_session_nocode_single_object : forall E parse_fdt cfg oti content toi evs,
+  let L := lenN_ content in
+  toi <> 0 -> nocode_ok oti L -> fdt_lists parse_fdt toi oti L (fun _ => True) ->
+  Forall (ev_single oti content toi) evs ->
+  let '(_, _, c) := recv_run E parse_fdt cfg recv0 evs ctx0 in
+  forall n, is_prefix (written (calls_of (toi, n) (c_log c))) content = true
+            /\ P_C03_writer content true (calls_of (toi, n) (c_log c)) = true.
+Proof. exact nocode_session_safety_single. Qed.
+Print Assumptions C03_session_nocode_single_object.
+
+Theorem C03_session_premises_statement : forall oti content toi L parse_fdt md5c E e p,
+  (ev_genuine oti content toi e <->
+     match e with
+     | RvPush p _ => a_toi p = toi -> genuine_pkt oti content p = true /\ pkt_ext_ok oti (lenN_ content) p
+     | _ => True
+     end)
+  /\ (pkt_ext_ok oti L p <->
+        (a_oti p = None \/ a_oti p = Some (oti, L)) /\ (a_cenc p = None \/ a_cenc p = Some CNull))
+  /\ (pkt_len_ok L p <->
+        match a_oti p with None => True | Some (_, l) => l = L end /\ (a_cenc p = None \/ a_cenc p = Some CNull))
+  /\ (ev_anybytes L toi e <-> match e with RvPush p _ => a_toi p = toi -> pkt_len_ok L p | _ => True end)
+  /\ (fdt_lists parse_fdt toi oti L md5c <->
+        forall d i f, parse_fdt d = Some i -> find (fun f => ff_toi f =? toi) (fi_files i) = Some f ->
+          ff_cenc f = CNull /\ match ff_oti f with Some x => Some x | None => fi_oti i end = Some oti
+          /\ ff_tlen f = L /\ md5c (ff_md5 f))
+  /\ (md5_injective_at E content <->
+        forall b, length b = length content -> e_md5 E b = e_md5 E content -> b = content).
+Proof. intros. do 5 (split; [reflexivity|]). reflexivity. Qed.
+Print Assumptions C03_session_premises_statement.
+
+(* G3 (MD5 clause), receiver level.  The packets of [toi] are ARBITRARY - any payload id, any payload bytes (in
+   particular packets of the right shape with altered bytes: shaped_pkt), any OTI in EXT_FTI provided the announced
+   transfer length is that of the object, no EXT_CENC other than null - and the FDT may announce ANY FEC scheme: the
+   entry carries the MD5 of the content, the writer checks it (e_md5_enabled), and MD5 is IDEALISED as collision-free
+   on byte strings of the length of the content (md5_injective_at: a trusted, false-in-principle hypothesis).
+   Then a complete means exactly the content (and never complete + error).  No hypothesis on the FEC decoder oracle. *)
+Theorem C03_md5_session_complete_implies_exact : forall E parse_fdt cfg oti content toi evs,
+  let L := lenN_ content in
+  toi <> 0 -> 0 < L -> e_md5_enabled E = true -> md5_injective_at E content ->
+  fdt_lists parse_fdt toi oti L (fun m => m = Some (e_md5 E content)) ->
+  Forall (ev_anybytes L toi) evs ->
+  let '(_, _, c) := recv_run E parse_fdt cfg recv0 evs ctx0 in
+  forall n, P_C03_writer content true (calls_of (toi, n) (c_log c)) = true.
+Proof. exact md5_session_safety. Qed.
+Print Assumptions C03_md5_session_complete_implies_exact.
+
+(* G3, object level (the setting of C03_nocode_complete_implies_exact) *)
+Theorem C03_md5_object_complete_implies_exact : forall E oti content toi max fid files inst pkts,
+  let L := lenN_ content in
+  toi <> 0 -> 0 < L -> e_md5_enabled E = true -> md5_injective_at E content ->
+  fdt_entry_for files inst toi oti L (Some (e_md5 E content)) ->
+  Forall (fun p => a_toi p = toi /\ pkt_len_ok L p) pkts ->
+  let (o, c) := receive E fid files inst toi max pkts in
+  forall n, P_C03_writer content true (calls_of (toi, n) (c_log c)) = true.
+Proof. exact md5_object_safety. Qed.
+Print Assumptions C03_md5_object_complete_implies_exact.
+
+(* packets of the right shape (genuine up to the payload bytes) are an instance of "arbitrary" *)
+Theorem C03_genuine_is_shaped : forall oti content p,
+  genuine_pkt oti content p = true -> shaped_pkt oti (lenN_ content) p = true.
+Proof. exact genuine_is_shaped. Qed.
+Print Assumptions C03_genuine_is_shaped.
+
+(* G3, second half (object level, No-Code): every source symbol is received, all packets carry the bytes of ANOTHER
+   byte string of the same length (payloads altered consistently: duplicates of a symbol carry the same altered
+   bytes): the object is never completed and its writer ends with error()/interrupted, whatever write() answers and
+   whatever the memory limit and the close flags are *)
+Theorem C03_md5_altered_ends_in_error : forall E oti content content' toi max fid files inst pkts,
+  let L := lenN_ content in
+  toi <> 0 -> nocode_ok oti L -> length content' = length content -> content' <> content ->
+  e_md5_enabled E = true -> md5_injective_at E content ->
+  fdt_entry_for files inst toi oti L (Some (e_md5 E content)) -> writer_accepts E toi ->
+  Forall (fun p => genuine_pkt oti content' p = true /\ a_toi p = toi /\ pkt_len_ok L p) pkts ->
+  recoverable oti L pkts = true ->
+  let (o, c) := receive E fid files inst toi max pkts in
+  (r_state o = Errored \/ r_state o = Interrupted)
+  /\ failed (calls_of (toi, 0%nat) (c_log c)) = true /\ completed (calls_of (toi, 0%nat) (c_log c)) = false.
+Proof. exact md5_altered_ends_in_error. Qed.
+Print Assumptions C03_md5_altered_ends_in_error.
+
+(* non-vacuity: a complete transfer, a time-out, then a PARTIAL second transfer of the same TOI (receive-once off)
+   interleaved with a packet of another TOI: the second writer (7,1) receives a strict prefix; the theorem applies *)
+Example C03_session_example_second_transfer :
+  Forall (ev_genuine ex_oti ex_content 7) c3_evs_two
+  /\ c3_log env_ok None c3_evs_two
+     = [EvBuilder 7 WStore; EvOpen (7, 0%nat) true; EvWrite (7, 0%nat) [1; 2; 3; 4] true; EvWrite (7, 0%nat) [5] true;
+        EvComplete (7, 0%nat);
+        EvBuilder 7 WStore; EvOpen (7, 1%nat) true; EvWrite (7, 1%nat) [1; 2; 3; 4] true]
+  /\ (let '(_, _, c) := recv_run env_ok (c3_parse None) c3_cfg recv0 c3_evs_two ctx0 in
+      forall n, is_prefix (written (calls_of (7, n) (c_log c))) ex_content = true
+                /\ P_C03_writer ex_content true (calls_of (7, n) (c_log c)) = true).
+Proof. split; [exact c3_evs_two_ok|]. split; [vm_compute; reflexivity|exact c3_two_transfers_by_theorem]. Qed.
+
+(* non-vacuity of the MD5 clause: one payload byte altered in transit ([3;4] -> [3;9]; toy digest = identity): all blocks
+   are received and written, the digest differs, the writer ends with error(); without the MD5 attribute the same
+   session is COMPLETED with the wrong bytes *)
+Example C03_md5_example_altered_payload :
+  c3_log c3_env (Some ex_content) (c3_sess c3_env (Some ex_content) (c3_fdt :: c3_pkts_altered))
+  = [EvBuilder 7 WStore; EvOpen (7, 0%nat) true; EvWrite (7, 0%nat) [1; 2; 3; 9] true; EvWrite (7, 0%nat) [5] true;
+     EvError (7, 0%nat)]
+  /\ forallb (shaped_pkt ex_oti 5) c3_pkts_altered = true
+  /\ forallb (genuine_pkt ex_oti ex_content) c3_pkts_altered = false
+  /\ c3_log c3_env None (c3_sess c3_env None (c3_fdt :: c3_pkts_altered))
+     = [EvBuilder 7 WStore; EvOpen (7, 0%nat) true; EvWrite (7, 0%nat) [1; 2; 3; 9] true; EvWrite (7, 0%nat) [5] true;
+        EvComplete (7, 0%nat)].
+Proof. vm_compute. repeat split. Qed.
+
+Example C03_md5_example_by_theorem :
+  (let '(_, _, c) := recv_run c3_env (c3_parse (Some ex_content)) c3_cfg recv0
+                               (c3_sess c3_env (Some ex_content) (c3_fdt :: c3_pkts_altered)) ctx0 in
+   forall n, P_C03_writer ex_content true (calls_of (7, n) (c_log c)) = true)
+  /\ (let (o, c) := receive c3_env 1 (fi_files (c3_inst (Some ex_content))) None 7 1000 c3_pkts_altered in
+      (r_state o = Errored \/ r_state o = Interrupted)
+      /\ failed (calls_of (7, 0%nat) (c_log c)) = true /\ completed (calls_of (7, 0%nat) (c_log c)) = false).
+Proof. exact c3_altered_by_theorem. Qed.
+
+(* pkt_ext_ok is needed (genuine payloads, no MD5): a first packet announcing transfer length 4 in EXT_FTI wins over the
+   FDT instance (5): completed with 4 bytes; a first packet with EXT_CENC = zlib wins over the FDT entry (no
+   encoding): the writer receives what the inflater makes of the bytes *)
+Example C03_ext_fti_needed :
+  genuine_pkt ex_oti ex_content (c3_with (Some (ex_oti, 4)) None (src_pkt 7 0 0 false [1; 2])) = true
+  /\ c3_log env_ok None (c3_sess env_ok None
+       [c3_with (Some (ex_oti, 4)) None (src_pkt 7 0 0 false [1; 2]); c3_fdt; src_pkt 7 0 1 false [3; 4]])
+     = [EvBuilder 7 WStore; EvOpen (7, 0%nat) true; EvWrite (7, 0%nat) [1; 2; 3; 4] true; EvComplete (7, 0%nat)].
+Proof. exact ext_fti_needed_refuted. Qed.
+Example C03_ext_cenc_needed :
+  genuine_pkt ex_oti ex_content (c3_with None (Some CZlib) (src_pkt 7 0 0 false [1; 2])) = true
+  /\ c3_log c3_env None (c3_sess c3_env None
+       [c3_with None (Some CZlib) (src_pkt 7 0 0 false [1; 2]); c3_fdt; src_pkt 7 0 1 false [3; 4]; src_pkt 7 1 0 false [5]])
+     = [EvBuilder 7 WStore; EvOpen (7, 0%nat) true; EvWrite (7, 0%nat) [9; 9; 9; 9] true; EvWrite (7, 0%nat) [9] true;
+        EvComplete (7, 0%nat)].
+Proof. exact ext_cenc_needed_refuted. Qed.
+(* G4: the same receiver-level statement for Reed-Solomon GF(2^8) (FEC 5, 129): genuine source and repair packets of
+   [toi] among arbitrary other traffic, under the EXPLICIT, TRUSTED hypothesis rs_oracle_sound (see
+   C03_rs_oracle_sound_statement); needed: C03_rs_wrong_decoder_corrupts *)
+Theorem C03_session_rs_complete_implies_exact : forall E parse_fdt cfg oti content rep toi evs,
+  let L := lenN_ content in
+  toi <> 0 -> rs_scheme_ok oti L -> rs_oracle_sound E oti content rep toi ->
+  fdt_lists parse_fdt toi oti L (fun _ => True) ->
+  Forall (ev_rs_genuine oti content rep toi) evs ->
+  let '(_, _, c) := recv_run E parse_fdt cfg recv0 evs ctx0 in
+  forall n, is_prefix (written (calls_of (toi, n) (c_log c))) content = true
+            /\ P_C03_writer content true (calls_of (toi, n) (c_log c)) = true.
+Proof. exact rs_session_safety. Qed.
+Print Assumptions C03_session_rs_complete_implies_exact.
+
+(* ... and for RaptorQ (FEC 6) / Raptor (FEC 1), under fq_oracle_sound *)
+Theorem C03_session_fq_complete_implies_exact : forall E parse_fdt cfg oti content enc toi evs,
+  let L := lenN_ content in
+  toi <> 0 -> fq_scheme_ok oti L -> fq_oracle_sound E oti content enc toi ->
+  fdt_lists parse_fdt toi oti L (fun _ => True) ->
+  Forall (ev_fq_genuine oti content enc toi) evs ->
+  let '(_, _, c) := recv_run E parse_fdt cfg recv0 evs ctx0 in
+  forall n, is_prefix (written (calls_of (toi, n) (c_log c))) content = true
+            /\ P_C03_writer content true (calls_of (toi, n) (c_log c)) = true.
+Proof. exact fq_session_safety. Qed.
+Print Assumptions C03_session_fq_complete_implies_exact.
+
+Theorem C03_session_rs_premises_statement : forall oti content rep enc toi e,
+  (ev_rs_genuine oti content rep toi e <->
+     match e with
+     | RvPush p _ => a_toi p = toi -> rs_genuine_pkt oti content rep p = true /\ pkt_ext_ok oti (lenN_ content) p
+     | _ => True
+     end)
+  /\ (ev_fq_genuine oti content enc toi e <->
+        match e with
+        | RvPush p _ => a_toi p = toi -> fq_genuine_pkt oti content enc p = true /\ pkt_ext_ok oti (lenN_ content) p
+        | _ => True
+        end).
+Proof. intros. split; reflexivity. Qed.
+Print Assumptions C03_session_rs_premises_statement.
+
+(* non-vacuity (Reed-Solomon, toy XOR decoder): two packets before the FDT instance, the instance, the rest - block 0 is
+   rebuilt from one source symbol and the parity symbol - then the start of a second transfer *)
+Example C03_session_rs_example :
+  Forall (ev_rs_genuine exr_oti exr_content exr_rep 7) c3r_evs
+  /\ (let '(_, _, c) := recv_run env_xor c3r_parse c3_cfg recv0 c3r_evs ctx0 in c_log c)
+     = [EvBuilder 7 WStore; EvOpen (7, 0%nat) true; EvWrite (7, 0%nat) [1; 2; 3; 4] true; EvWrite (7, 0%nat) [5] true;
+        EvComplete (7, 0%nat);
+        EvBuilder 7 WStore; EvOpen (7, 1%nat) true; EvWrite (7, 1%nat) [1; 2; 3; 4] true]
+  /\ (let '(_, _, c) := recv_run env_xor c3r_parse c3_cfg recv0 c3r_evs ctx0 in
+      forall n, is_prefix (written (calls_of (7, n) (c_log c))) exr_content = true
+                /\ P_C03_writer exr_content true (calls_of (7, n) (c_log c)) = true).
+Proof. split; [exact c3r_evs_ok|]. split; [vm_compute; reflexivity|exact c3r_by_theorem]. Qed.
+(* ===== end block: C03Session ===== *)
